@@ -1,7 +1,7 @@
 (* The case language interpreter: one case (an s-expression) in, one canonical result line out.
    The same function is evaluated in-kernel (vm_compute) and extracted to OCaml. *)
 From Coq Require Import Strings.String.
-From Iso Require Import Model.Base Model.Sexp Model.Padding Model.Encoding Model.Prefix Model.Network Model.Bitmap Model.Spec Model.Field Model.Message Model.Json Model.MessageOps Model.Terms.
+From Iso Require Import Model.Base Model.Sexp Model.Padding Model.Encoding Model.Prefix Model.Network Model.Bitmap Model.Spec Model.Field Model.Message Model.Json Model.MessageOps Model.Describe Model.Terms.
 
 Definition S' (s : string) : bytes := list_byte_of_string s.
 
@@ -388,6 +388,12 @@ Definition run_msg (args : list sexp) : bytes :=
   | _ => bad
   end.
 
+Definition run_desc (k : nat) (args : list sexp) : bytes :=
+  match args with
+  | [v] => match as_hex v with Some b => show_hex (mask k b) | None => bad end
+  | _ => bad
+  end.
+
 Definition dispatch (s : sexp) : bytes :=
   match s with
   | SList (Atom name :: args) =>
@@ -398,6 +404,8 @@ Definition dispatch (s : sexp) : bytes :=
       else if bytes_eqb name (S' "pref.enc") then run_pref_enc args
       else if bytes_eqb name (S' "pref.dec") then run_pref_dec args
       else if bytes_eqb name (S' "bm") then run_bm args
+      else if bytes_eqb name (S' "desc.pan") then run_desc 4 args
+      else if bytes_eqb name (S' "desc.pin") then run_desc 2 args
       else if bytes_eqb name (S' "fld") then run_fld args
       else if bytes_eqb name (S' "msg") then run_msg args
       else if bytes_eqb name (S' "hdr.set") then run_hdr_set args
